@@ -39,8 +39,12 @@ inline void inv_C05(const OSnap& o, Sink& out) {
     // -- frame count
     if (pFrames && pFrames->type == ezc3d::DATA_TYPE::INT && !pFrames->ints.empty()) {
         size_t fr = (size_t)pFrames->ints[0];
-        if (o.h.nFrames != fr || fr != o.frames.size())
-            V(out, "C05", "hdr_frames/hdr=" + S(o.h.nFrames) + ",FRAMES=" + S(fr) + ",stored=" + S(o.frames.size()) + "/" + cls, "header frame count, POINT:FRAMES and stored frames disagree");
+        if (o.h.nFrames != fr || fr != o.frames.size()) {
+            std::string detail = "header frame count " + S(o.h.nFrames) + ", POINT:FRAMES " + S(fr) + ", stored frames " + S(o.frames.size());
+            if (o.h.nPoints == 0 && o.h.nAnalogs == 0 && o.h.nFrames == 0)   // header derives 0 frames whenever it has neither points nor channels
+                V(out, "C05", std::string("hdr_frames/header-says-0-without-points-or-channels/") + (fr == o.frames.size() ? "FRAMES=stored" : "FRAMES!=stored"), detail);
+            else V(out, "C05", "hdr_frames/hdr=" + S(o.h.nFrames) + ",FRAMES=" + S(fr) + ",stored=" + S(o.frames.size()) + "/" + cls, detail);
+        }
     } else V(out, "C05", "POINT:FRAMES_missing", "");
     // -- rate
     if (pRate && pRate->type == ezc3d::DATA_TYPE::FLOAT && !pRate->floats.empty()) {
